@@ -8,6 +8,7 @@ import (
 	"verif/harness/c09"
 	"verif/harness/c17"
 	"verif/harness/c18"
+	"verif/harness/c19"
 	"verif/harness/core"
 )
 
@@ -18,5 +19,6 @@ func main() {
 		"C09": c09.H{},
 		"C17": c17.H{},
 		"C18": c18.H{},
+		"C19": c19.H{},
 	})
 }
